@@ -10,9 +10,11 @@ import sys
 import time
 
 V = os.path.dirname(os.path.dirname(os.path.abspath(__file__)))
-WT = "/var/tmp/vfmut/wt"
-CACHE = "/var/tmp/vfmut/cache"
-EVD = "/var/tmp/vfmut/evidence"
+BASE = os.environ.get("VFMUT_DIR", "/var/tmp/vfmut")
+WT = BASE + "/wt"
+CACHE = BASE + "/cache"
+EVD = BASE + "/evidence"
+KIND = os.environ.get("VFMUT_KIND", "mutants")   # mutants | refactors
 
 
 def sh(cmd, **kw):
@@ -28,11 +30,14 @@ def main():
     sh("git -C %s checkout -q --detach %s && git -C %s checkout -q -- . && git -C %s clean -fdq" % (WT, head, WT, WT))
     claims = json.load(open(os.path.join(V, "tools", "claims.json")))
     props = sorted(p for p, c in claims.items() if c.get("claimed"))
-    patches = sorted(glob.glob(os.path.join(V, "selftest", "mutants", "*.patch"))) + \
-        sorted(glob.glob(os.path.join(V, "seeded", "*", "patch.diff")))
+    if KIND == "refactors":
+        patches = sorted(glob.glob(os.path.join(V, "selftest", "refactors", "*.patch")))
+    else:
+        patches = sorted(glob.glob(os.path.join(V, "selftest", "mutants", "*.patch"))) + \
+            sorted(glob.glob(os.path.join(V, "seeded", "*", "patch.diff")))
     env = dict(os.environ, VF_REPO=WT, VF_CACHE=CACHE, VF_EVIDENCE_DIR=EVD)
     results = {}
-    respath = os.path.join(V, "selftest", "results.json")
+    respath = os.path.join(V, "selftest", "results.json" if KIND != "refactors" else "results_refactors.json")
     if os.path.exists(respath):
         results = json.load(open(respath))
     for p in [None] + patches:
